@@ -20,6 +20,7 @@ import (
 type RunCfg struct {
 	Repo, Mirror, Tier, Out string
 	DumpSynth, Verbose     bool
+	WritingBaseline        bool
 	VerifDir               string
 }
 
@@ -222,6 +223,7 @@ func runProperty(cfg *RunCfg, id string) int {
 }
 
 func runAll(cfg *RunCfg, writeBaseline bool) int {
+	cfg.WritingBaseline = writeBaseline
 	prog := loadOrDie(cfg)
 	ids := manifestProperties(cfg)
 	if len(ids) == 0 {
@@ -519,7 +521,7 @@ func checkProperty(cfg *RunCfg, prog *Program, id string, start time.Time) (int,
 
 	// obligations that were discharged on the pinned tree and no longer exist: the property is no
 	// longer established for the code they covered (function under contract removed or renamed)
-	if len(missing) > 0 {
+	if len(missing) > 0 && !cfg.WritingBaseline {
 		o := &Obligation{Name: "baseline.missing-obligations", Kind: "baseline", Desc: fmt.Sprintf("%d obligations of the baseline no longer exist", len(missing)), Status: "undecided", Output: strings.Join(missing, "\n") + "\nstale contracts: " + strings.Join(prog.CS.Stale, "; ")}
 		violations = append(violations, writeReplay(replayDir, id, o, &UnitResult{Key: "baseline", Reg: NewRegistry()}, "obligations discharged on the pinned tree have disappeared (contract key no longer matches the code): "+strings.Join(missing, ", "), false, prog, cfg))
 	}
